@@ -1150,6 +1150,12 @@ class Checker:
         return sorted(changed)
 
 
+def flaky(impl_text, model_text):
+    """a step reported as hanging where the model does not diverge: a loaded machine, or a defect - main.py re-runs the case
+    alone with a long step limit before it is judged"""
+    return "(Hang)" in impl_text and "(Diverges)" not in model_text
+
+
 def _reset_world():
     _load()
     from pyoak.legacy.node import AwareASTNode
@@ -1177,6 +1183,8 @@ def impl(t, case):
     checks = []
     prev = []
     step_limit = 1.0 if os.environ.get("VERIF_TIER", "quick") == "quick" else 2.0
+    if os.environ.get("VERIF_STEP_LIMIT"):      # the retry of main.py: a step that "hung" on a loaded machine gets a long limit
+        step_limit = float(os.environ["VERIF_STEP_LIMIT"])
     dead = False
     for k, op in enumerate(ops):
         if w.uses_pool(op) and not w.pool:
